@@ -733,3 +733,172 @@ func TestC18BatchBoundary(t *testing.T) {
 		}
 	})
 }
+
+// ---- many tombstones: the deferred tombstone pass spans more than one PutBatch ----
+
+var tombFillerBlobs []blob
+
+// tombFillers returns n unrelated TOMBSTONE objects of container 2 (synthetic
+// IDs, each targeting its own absent synthetic object).
+func tombFillers(n int) []blob {
+	for i := len(tombFillerBlobs); i < n; i++ {
+		o := uni.Build(blank(uni.Regular, 2, 0))
+		var id, target oid.ID
+		id[0], id[1], id[2], id[31] = 0x77, byte(i>>8), byte(i), 1
+		target[0], target[1], target[2], target[31] = 0x78, byte(i>>8), byte(i), 1
+		o.SetID(id)
+		o.AssociateDeleted(target)
+		tombFillerBlobs = append(tombFillerBlobs, blob{addr: oid.NewAddress(uni.Cnr(2), id), data: o.Marshal()})
+	}
+	return tombFillerBlobs[:n]
+}
+
+// manyTombsDone counts completed heavy cases of this process: every case costs
+// several rebuilds of 1000+ objects, the driver passes one -rapid.checks per unit.
+var manyTombsDone int
+
+// TestC18ManyTombstones: the blob storage holds >= 1000 (thorough: also 2000+)
+// tombstones besides a small related set, so the tombstones cannot be applied
+// in one transaction. Blob orders put the set's own tombstones among the first
+// thousand tombstones and the objects they act on AFTER the 1000th tombstone
+// (and the other way round, and at generated positions, optionally with 1000+
+// regular fillers so that the regular batch is flushed in between as well).
+// Oracle: as TestC18Resync – identical vectors for all orders, equal (class and
+// lock state) to incremental construction "objects first, tombstones last" when
+// it is accepted entirely, removed objects garbage-listed.
+func TestC18ManyTombstones(t *testing.T) {
+	rec := ev.New("C18", "many-tombstones")
+	defer rec.Flush()
+	limit := 3
+	if ev.Thorough() {
+		limit = 20
+	}
+	rapid.Check(t, func(t *rapid.T) {
+		if manyTombsDone >= limit {
+			return
+		}
+		s := genSet(t, genCfg{allowLT: rapid.IntRange(0, 5).Draw(t, "lt-class") == 0, minN: 2, maxN: 5, cnrs: 1,
+			noExpiredParent: ev.IsOpen("C18", fpExpParent), forceTomb: true})
+		rec.Excluded(int64(s.excluded))
+		sizes := []int{1000, 1001, 1050, 1100}
+		if ev.Thorough() {
+			sizes = append(sizes, 1999, 2000, 2100)
+		}
+		nt := rapid.SampledFrom(sizes).Draw(t, "tombstone-fillers")
+		nr := rapid.SampledFrom([]int{0, 0, 3, 1000, 1001}).Draw(t, "regular-fillers")
+		pos := rapid.IntRange(0, nt).Draw(t, "position")
+
+		var own, rest []blob // the set's tombstones / everything else of the set
+		for i, b := range blobsOf(s) {
+			if s.Members[i].Role == rTomb {
+				own = append(own, b)
+			} else {
+				rest = append(rest, b)
+			}
+		}
+		tf, rf := tombFillers(nt), fillers(nr)
+		type order struct {
+			name  string
+			blobs []blob
+		}
+		orders := []order{
+			{"set objects, regular fillers, own tombstones, filler tombstones", slices.Concat(rest, rf, own, tf)},
+			{"own tombstones, 1000+ filler tombstones, regular fillers, set objects (after the 1000th tombstone)", slices.Concat(own, tf, rf, rest)},
+			{"regular fillers, own tombstones, filler tombstones, set objects", slices.Concat(rf, own, tf, rest)},
+			{fmt.Sprintf("%d filler tombstones, own tombstones, rest of filler tombstones, regular fillers, set objects", pos), slices.Concat(tf[:pos], own, tf[pos:], rf, rest)},
+			{fmt.Sprintf("%d filler tombstones, set objects, own tombstones, regular fillers, rest of filler tombstones", pos), slices.Concat(tf[:pos], rest, own, rf, tf[pos:])},
+		}
+		rec.Case(true, s.String()+fmt.Sprint(nt, nr, pos), append(labelsOf(s), fmt.Sprintf("tombstone-fillers-%d", nt), fmt.Sprintf("regular-fillers-%d", nr))...)
+		if rec.WantSample() {
+			rec.Sample(map[string]any{"set": s, "tombstone_fillers": nt, "regular_fillers": nr, "position": pos})
+		}
+
+		addrs := s.interest()
+		f := s.facts()
+		ep := &stor.Epoch{}
+		dir, db, db2 := openTwo(t, ep)
+		defer os.RemoveAll(dir)
+		defer db.Close()
+		defer db2.Close()
+
+		var base []Obs
+		for i, o := range orders {
+			ep.Set(uint64(s.Er))
+			if err := db.ResyncFromBlobstor(&orderedStore{blobs: o.blobs}, strictErr); err != nil {
+				t.Fatalf("resync failed (%s): %v\n%s", o.name, err, s.Short())
+			}
+			ep.Set(uint64(s.Eq))
+			v, err := observe(db, addrs)
+			if err != nil {
+				t.Fatalf("observe: %v", err)
+			}
+			normalise(s, f, addrs, v)
+			rec.Label("resyncs")
+			if i == 0 {
+				base = v
+				continue
+			}
+			if slices.Equal(base, v) {
+				continue
+			}
+			var diff []string
+			xp, onlyXP := s.expiredParentFamilies(), true
+			for k := range addrs {
+				if base[k] != v[k] {
+					diff = append(diff, fmt.Sprintf("%s: %v [%s] vs %v [%s]", fmtAddr(addrs[k]), base[k], orders[0].name, v[k], o.name))
+					onlyXP = onlyXP && xp[s.famOf(addrs[k])]
+				}
+			}
+			if onlyXP && rec.Known(fpExpParent) {
+				rec.Label("known:" + fpExpParent)
+				manyTombsDone++
+				return
+			}
+			t.Fatalf("statuses depend on the blob order with %d+%d tombstones and %d regular fillers:\n  %s\n%s", nt, len(own), nr, strings.Join(diff, "\n  "), s.Short())
+		}
+		if !s.isLT() {
+			// removed objects are garbage-listed (GC can reclaim them)
+			idx := map[oid.Address]int{}
+			for i, a := range addrs {
+				idx[a] = i
+			}
+			for _, m := range mustReclaim(s, f) {
+				if got := base[idx[m.addr()]]; !got.Garbage {
+					t.Fatalf("%s (%s) is removed by a stored tombstone but not in the garbage list after rebuild (%d tombstones stored): %v\n%s",
+						fmtAddr(m.addr()), m.Role, nt+len(own), got, s.Short())
+				}
+			}
+			// incremental construction: objects first, tombstones last
+			if err := db2.Reset(); err != nil {
+				t.Fatalf("setup: reset: %v", err)
+			}
+			ep.Set(uint64(s.Er))
+			complete := true
+			for _, b := range slices.Concat(rest, own) {
+				o := new(object.Object)
+				if err := o.Unmarshal(b.data); err != nil {
+					t.Fatalf("setup: unmarshal: %v", err)
+				}
+				if err := db2.Put(o); err != nil {
+					complete = false
+					break
+				}
+			}
+			if complete {
+				rec.Label("incremental-order-complete")
+				ep.Set(uint64(s.Eq))
+				v, err := observe(db2, addrs)
+				if err != nil {
+					t.Fatalf("observe: %v", err)
+				}
+				normalise(s, f, addrs, v)
+				for k := range addrs {
+					if base[k].Class != v[k].Class || base[k].Locked != v[k].Locked {
+						t.Fatalf("%s: rebuilt %v, incremental (objects first, tombstones last, all accepted) %v\n%s", fmtAddr(addrs[k]), base[k], v[k], s.Short())
+					}
+				}
+			}
+		}
+		manyTombsDone++
+	})
+}
